@@ -10,6 +10,10 @@ EVENTS = ["e1", "e2", "e3"]
 NOPRIO = -999
 
 
+class Runaway(BaseException):
+    """a dispatch that keeps calling listeners (e.g. iteration over a list that grows while it is iterated)"""
+
+
 class Driver(object):
     """one EventDispatcher (optionally reached through ApplicationConfig) + listener bookkeeping"""
 
@@ -58,6 +62,8 @@ class Driver(object):
 
             def listener(event, name, disp, _lid=lid, _stops=stops, _spawn=spawn):
                 self.called.append(_lid)
+                if len(self.called) > 300:
+                    raise Runaway()
                 if _spawn["ev"]:
                     # a listener that registers another (plain) listener while the dispatch is running
                     nid = len(self.listeners) + 1
@@ -79,10 +85,13 @@ class Driver(object):
         elif k == "dispatch":
             self.called = []
             # with the caller's own Event object, or letting the dispatcher create one
-            if op.get("own", True):
-                self._disp().dispatch(op["ev"], Event())
-            else:
-                self._disp().dispatch(op["ev"])
+            try:
+                if op.get("own", True):
+                    self._disp().dispatch(op["ev"], Event())
+                else:
+                    self._disp().dispatch(op["ev"])
+            except Runaway:
+                self.called.append(-1)
             ev["calls"] = list(self.called)
         elif k == "get":
             ev["ids"] = [self.ident(f) for f in self._disp().get_listeners(op["ev"])]
